@@ -89,9 +89,9 @@ Proof.
   cbn [app split_ws_go]. rewrite Hc, (IH s (acc ++ [c]) Hr), <- app_assoc. reflexivity.
 Qed.
 
-Lemma split_ws_join l : forallb ws_item l = true -> split_ws (join [32%N] l) = l.
+Lemma split_ws_join_sep c l : is_ws c = true -> forallb ws_item l = true -> split_ws (join [c] l) = l.
 Proof.
-  unfold split_ws. induction l as [|x r IH]; [reflexivity|]. intros H.
+  intros Hc. unfold split_ws. induction l as [|x r IH]; [reflexivity|]. intros H.
   cbn [forallb] in H. apply andb_true_iff in H. destruct H as [Hx Hr].
   assert (Hne : x <> []) by (destruct x; [discriminate|congruence]).
   assert (Hf : ws_free x = true) by (destruct x; [discriminate|exact Hx]).
@@ -99,9 +99,13 @@ Proof.
   - cbn [join]. rewrite <- (app_nil_r x) at 1. rewrite split_ws_go_app by exact Hf.
     cbn [split_ws_go app]. destruct x; [congruence|reflexivity].
   - rewrite join_cons2 by discriminate. rewrite split_ws_go_app by exact Hf.
-    cbn [app split_ws_go]. change (is_ws 32) with true. cbv iota.
-    destruct x as [|c x']; [congruence|]. cbn [app]. rewrite IH by exact Hr. reflexivity.
+    cbn [app split_ws_go]. rewrite Hc.
+    destruct x as [|c0 x']; [congruence|]. cbn [app]. rewrite IH by exact Hr. reflexivity.
 Qed.
+Lemma split_ws_join l : forallb ws_item l = true -> split_ws (join [32%N] l) = l.
+Proof. apply split_ws_join_sep. reflexivity. Qed.
+Lemma split_ws_join_lf l : forallb ws_item l = true -> split_ws (join [10%N] l) = l.
+Proof. apply split_ws_join_sep. reflexivity. Qed.
 
 (* ---- split('\n') ∘ join "\n" ---- *)
 Lemma split_lf_join_nolf ls : ls <> [] -> forallb no_lf ls = true -> split_lf (join [LF] ls) = ls.
@@ -196,6 +200,7 @@ Definition val_dom (s : ser_id) (d : de_id) (v : uval) : Prop :=
   | SNum, DNum bits, VNum n => (n < 2 ^ bits)%N
   | SInt, DInt bits, VInt z => int_in_range bits z
   | SJoinWs, DSplitWs, VList l => forallb ws_item l = true          (* items non-empty, no white space *)
+  | SJoinNl, DSplitWs, VList l => forallb ws_item l = true          (* one item per line, read back by split_whitespace *)
   | SJoinNl, DSplitNl, VList l => l <> [] /\ forallb no_lf l = true   (* at least one item, no LF inside *)
   | SJoinNl, DLines, VList l => forallb no_eol l = true /\ last l [1%N] <> []   (* no LF/CR, last item non-empty *)
   | SExt i, DExt j, VExt e => i = j /\ ext_dom i e
@@ -218,6 +223,7 @@ Proof.
   - eexists; split; [reflexivity|]. rewrite parse_print_dec by exact H. reflexivity.
   - eexists; split; [reflexivity|]. rewrite parse_print_int by exact H. reflexivity.
   - eexists; split; [reflexivity|]. rewrite split_ws_join by exact H. reflexivity.
+  - eexists; split; [reflexivity|]. rewrite split_ws_join_lf by exact H. reflexivity.
   - destruct H as [H1 H2]. eexists; split; [reflexivity|]. change [10%N] with [LF]. rewrite split_lf_join_nolf by assumption. reflexivity.
   - destruct H as [H1 H2]. eexists; split; [reflexivity|]. change [10%N] with [LF]. rewrite lines_join by assumption. reflexivity.
   - destruct H as [<- H]. eexists; split; [reflexivity|]. rewrite (Hext _ _ H). reflexivity.
